@@ -631,7 +631,8 @@ impl DecodeBeatmap for HitObjects {
                     .parse_with_limits(f64::from(MAX_COORDINATE_VALUE))?
                     .max(0.0);
 
-                if new_len.abs() >= f64::EPSILON {
+                // Only a length of zero stands for "no length given"
+                if new_len > 0.0 {
                     len = Some(new_len);
                 }
             }
